@@ -286,6 +286,18 @@ Arguments s_nil {trace}. Arguments s_nxl {trace}. Arguments s_ns {trace}.
 Arguments s_il0 {trace}. Arguments s_dil {trace}. Arguments s_xl0 {trace}. Arguments s_dxl {trace}.
 Arguments s_trace {trace}. Arguments s_hdr {trace}.
 
+(* ---------------- the windowed container in closed form (used by the statements of Props/C11.v) ---------------- *)
+Section Spec.
+Variable trace : Type.
+Variables (S : source trace) (a b c d : Z).
+(* buffer cell (row r of the padded window, padded crossline x): the sub-cube edge-extended along both axes *)
+Definition spec_cell (r x : Z) : trace := s_trace S (a + Z.min r (b - a - 1)) (c + Z.min x (d - c - 1)).
+(* flat index, in the source file, of trace k of the window (k counts the window's traces inline-major) *)
+Definition spec_src_index (k : Z) : Z := (a + k / (d - c)) * s_nxl S + (c + k mod (d - c)).
+(* the stored array of field f: one entry per trace of the window, in window order *)
+Definition spec_array (f : Z) : list Z := map (fun k => s_hdr S (spec_src_index k) f) (zrange 0 ((b - a) * (d - c))).
+End Spec.
+
 (* ---------------- instance used by the correspondence harness: a trace is its (inline, crossline) ordinal pair ------- *)
 Definition prov_source (n_il n_xl ns il0 dil xl0 dxl : Z) (hdr : Z -> Z -> Z) : source (Z * Z) :=
   {| s_nil := n_il; s_nxl := n_xl; s_ns := ns; s_il0 := il0; s_dil := dil; s_xl0 := xl0; s_dxl := dxl;
